@@ -33,7 +33,7 @@ static Boolean verif_AddChunk(ChunkList* NChunk, LargeWord NewStart, LargeWord N
 #define LMAX 16
 static unsigned char L[LMAX]; static int Ln; static char Lmark, Ltype; static int g_stray, g_lines, g_bad_struct;
 static unsigned long g_base, g_next, g_rec_start, g_rec_len; static int g_data_lines, g_fmt_kind; /* 1 Moto, 2 Intel, 3 MOS, 4 Tek */
-static unsigned g_mos_expected_reset; static int g_s5_seen, g_trailers; static unsigned g_s5_val;
+static unsigned g_mos_expected_reset; static int g_s5_seen, g_trailers; static unsigned g_s5_val, g_s5_expect;
 static void put2(unsigned long v) { if (Ln >= 0 && Ln < LMAX) L[Ln] = (unsigned char)v; Ln++; }
 static void put4(unsigned long v) { put2(v >> 8); put2(v); }
 static unsigned nib(unsigned b) { return (b >> 4) + (b & 15); }
@@ -110,7 +110,16 @@ static void line_done(void) {
             int alen = 2 + (Ltype - '1'); unsigned long a = 0;
             for (i = 0; i < 4; i++) if (i < alen) a = (a << 8) | L[1 + i];
             data_bytes(a, 1 + alen, (int)cnt - alen - 1);
-        } else if (Ltype == '5') { g_s5_seen++; g_s5_val = (((unsigned)L[1]) << 8) | L[2]; if (g_data_lines != 0) g_bad_struct++; }
+        } else if (Ltype == '5') { g_s5_seen++; g_s5_val = (((unsigned)L[1]) << 8) | L[2]; if (g_data_lines != 0) g_bad_struct++;
+#ifdef VERIF_S5ONLY
+            /* record-count record of a group of any size: count and checksum are decided here, then the path ends (the data
+             * lines of long records are outside the bounded line loop) */
+            VASSERT(g_s5_val == g_s5_expect, "C06: the S5 record carries the number of data lines of the group (record length / line length, rounded up)");
+            if (g_s5_val >= 256) VREACH("S5 count >= 256");
+            if (g_s5_val < 256) VREACH("S5 count < 256");
+            VASSUME(0);
+#endif
+        }
         else if (Ltype >= '7' && Ltype <= '9') { g_trailers++; for (i = 1; i < LMAX; i++) if (i < Ln - 1 && L[i] != 0) g_bad_struct++; }
         else if (Ltype != '0') g_bad_struct++;
     } else if (Lmark == ';') {                                /* MOS: ;CCAAAA data.. SSSS, 16-bit sum of count, address and data */
@@ -185,3 +194,35 @@ void h_ProcessFile_lines(void) {
     VPOST(g_data_lines >= 1, "C06: a non-empty record produces data lines");
     VREACH("end");
 }
+
+#ifdef VERIF_S5ONLY
+/* Motorola S5 (record count) record for a data record of ANY length 1..65535 and any line length 1..255: count field and
+ * checksum by the public definition (the line monitor checks the checksum of every S line).  The path is cut after the S5
+ * line; the data lines themselves are the subject of hex_lines_MotoS_*. */
+void h_ProcessFile_S5(void) {
+    Byte cpu; unsigned long start; unsigned len; char name[2]; int i;
+    msg_txt[0] = 'm'; msg_txt[1] = 0; name[0] = 'f'; name[1] = 0; QuietMode = True; verif_errno = 0;
+    VND(cpu, uchar); VND(start, ulong); VND(len, uint);
+    VASSUME(len >= 1 && len <= 65535);
+    gs[0].data[0] = 0x89; gs[0].data[1] = 0x14; gs[0].data[2] = FileHeaderDataRec; gs[0].data[3] = cpu; gs[0].data[4] = SegCode; gs[0].data[5] = 1;
+    gs[0].data[6] = (unsigned char)start; gs[0].data[7] = (unsigned char)(start >> 8); gs[0].data[8] = (unsigned char)(start >> 16); gs[0].data[9] = (unsigned char)(start >> 24);
+    gs[0].data[10] = (unsigned char)len; gs[0].data[11] = (unsigned char)(len >> 8);
+    for (i = 12; i < GS_MAX; i++) VND(gs[0].data[i], uchar);
+    gs[0].len = 12 + (long)len + 2;   /* the file is as long as the record says (the payload beyond the model's array is never read: the path ends at the S5 line) */
+    gs[0].pos = 0; gs[0].is_open = 1; gs[0].fail = 0;
+    gs[1].len = 0; gs[1].pos = 0; gs[1].is_open = 1; gs[1].fail = 0;
+    TargFile = GS_FILE(1); g_open_which = 0;
+    DestFormat = eHexFormatMotoS; ForceSegment = SegNone; MultiMode = 0; AVRLen = 3;
+    RelAdr = 0; Relocate = 0; Rec5 = 1; VND(SepMoto, uchar); VASSUME(SepMoto <= 1);
+    VND(MinMoto, uchar); VASSUME(MinMoto >= 1 && MinMoto <= 3);
+    VND(LineLen, uint); VASSUME(LineLen >= 1 && LineLen <= 255);
+    for (i = 0; i < SegCount; i++) { StartAdr[i] = 0; StopAdr[i] = 0xffffffffu; }
+    VASSUME(start <= 0xffff0000u);
+    FormatOccured = 0; MaxMoto = 0; MaxIntel = 0; EntryAdrPresent = False;
+    g_stray = g_lines = g_bad_struct = g_data_lines = 0; Lmark = 0; Ln = 0; g_base = 0;
+    g_rec_start = start; g_rec_len = len; g_next = start; g_s5_seen = 0; g_s5_val = 0; g_trailers = 0;
+    g_s5_expect = (len + LineLen - 1) / LineLen;
+    ProcessFile(name, 0);
+    VASSERT(0, "C06: a group with S5 records requested writes its S5 record before any data line (this point is behind the cut)");
+}
+#endif
